@@ -694,6 +694,9 @@ def df_consistent(path):
     fins = _eff(path, 'finish')
     if path.outcome != 'return':
         return (not fins) or 'finish' in path.value[0], 'no response body on an exceptional exit'
+    if not fins:
+        # the body is not handed to self.finish in this function (sent through a helper, written differently): nothing can be said here
+        raise _oos('no self.finish(...) on a returning path of the diff handler')
     if len(fins) != 1:
         return False, '%d responses' % len(fins)
     data = fins[0].args[-1]
@@ -722,6 +725,8 @@ def mg_library(path):
     if len(d) != 1 or [as_py(a) for a in d[0].args[:3]] != [as_py(reads[k].result) for k in ('base', 'local', 'remote')]:
         if len(d) != 1 or not all(as_py(a).eq(as_py(reads[k].result)) for a, k in zip(d[0].args[:3], ('base', 'local', 'remote'))):
             return False, 'decide_notebook_merge not applied to (base, local, remote) of this request'
+    if not fins:
+        raise _oos('no self.finish(...) on a returning path of the merge handler')
     data = fins[0].args[-1]
     if not (isinstance(data.origin, tuple) and data.origin[0] == 'dict' and set(data.origin[1]) == {'base', 'merge_decisions'}):
         return False, 'response is not {base, merge_decisions}'
